@@ -56,6 +56,55 @@ def factorize(n):
     return fs
 
 
+def is_prime(n):
+    if n < 2:
+        return False
+    for p in (2, 3, 5, 7, 11, 13, 17, 19, 23, 29, 31, 37):
+        if n % p == 0:
+            return n == p
+    d, k = n - 1, 0
+    while d % 2 == 0:
+        d //= 2
+        k += 1
+    for a in (2, 3, 5, 7, 11, 13, 17, 19, 23, 29, 31, 37):      # deterministic below 3.3e24
+        x = pow(a, d, n)
+        if x in (1, n - 1):
+            continue
+        for _ in range(k - 1):
+            x = x * x % n
+            if x == n - 1:
+                break
+        else:
+            return False
+    return True
+
+
+def phi_of(fs):
+    r = 1
+    for p, e in fs:
+        r *= p ** (e - 1) * (p - 1)
+    return r
+
+
+def sym_eff(giant, d1, d2):
+    first, pushed, loop_lo = giant
+    return (first + pushed + max(d2 - loop_lo, 0) - 1) * d1 + d1 // 2 - 1
+
+
+def bad_rows(rows, eff):
+    """(label, effective B2, first prime above the effective B2 that does not divide d1) for label > eff"""
+    from math import gcd
+    out = []
+    for (lab, d1, d2) in rows:
+        u = eff(d1, d2)
+        if lab > u:
+            w = u + 1
+            while not (gcd(w, d1) == 1 and is_prime(w)):
+                w += 1
+            out.append((lab, u, w))
+    return out
+
+
 def ecm_like(body, what, mul_pat, dbl_pat, gg_init_pat, add_pat, push2_pat, push_loop_pat):
     """baby loop `for b in LO..d1 / DIV`, giant steps: first = [d1]G, second = its double,
     then `for _ in K..d2` adding [d1]G. Returns (babyLo, babyDiv, giantFirst, pushed, loopLo)."""
@@ -168,6 +217,21 @@ def run():
     d1s = sorted({r[1] for r in t_pm1} | {r[1] for r in t_ecm})
     facs = [(d, factorize(d)) for d in d1s]
 
+    phi = {d: phi_of(fs) for d, fs in facs}
+    for d, fs in facs:          # cross-check the formula by the loop itself where that is cheap
+        if d <= 40000:
+            from math import gcd
+            cnt = 1 + sum(1 for b in range(pm1_start + pm1_step, d + pm1_step + 1, pm1_step) if b % 3 != 0 and gcd(b, d) == 1)
+            if cnt != phi[d] + 1:
+                raise ExtractError(f"phi({d}) + 1 != number of baby steps")
+    threshold = num_lit(must(r"const MULTIEVAL_THRESHOLD: f64 = ([\d.e]+);", pm1, "MULTIEVAL_THRESHOLD").group(1))
+    # rows of the P-1 table that a b2 > threshold can select (nearest label; a row r is never selected
+    # when a larger label r' has r + r' <= 2*threshold)
+    poly_rows = [r for r in t_pm1 if not any(r[0] < q[0] and r[0] + q[0] <= 2 * threshold for q in t_pm1)]
+    bad_ecm = bad_rows(t_ecm, lambda d1, d2: sym_eff(e[2:], d1, d2))
+    bad_pp1 = bad_rows(t_ecm, lambda d1, d2: sym_eff((pp1_first, pp1_pushed, pp1_loop_lo), d1, d2))
+    bad_pm1 = bad_rows(poly_rows, lambda d1, d2: (d2 - pm1_neg - (phi[d1] + 1 + 2 - pm1_off)) * d1 - 1)
+
     def lrow(t):
         return "(" + ", ".join(str(x) for x in t) + ")"
     fac_txt = ",\n  ".join(f"({d}, [" + ", ".join(f"({p}, {k})" for p, k in fs) + "])" for d, fs in facs)
@@ -204,6 +268,14 @@ def pp1Calls : List (Nat × Nat × Nat) := [{", ".join(lrow(t) for t in pp1_call
 /-- Direct calls of `pm1_impl` in the test-suite: (B1, B2). -/
 def pm1TestCalls : List (Nat × Nat) := [{", ".join(lrow(t) for t in pm1_calls)}]
 
+/-! Rows whose label exceeds the last value of the grid: (label, effective B2, first prime above the
+effective B2 not dividing d1). Computed by the translator with its own arithmetic; `Props/C16.lean`
+proves that the lists agree with the model (`*_badRows`). -/
+def ecmBadRows : List (Nat × Nat × Nat) := [{", ".join(lrow(t) for t in bad_ecm)}]
+def pp1BadRows : List (Nat × Nat × Nat) := [{", ".join(lrow(t) for t in bad_pp1)}]
+/-- only rows that `pm1_impl` can select with `b2 > MULTIEVAL_THRESHOLD` -/
+def pm1BadRows : List (Nat × Nat × Nat) := [{", ".join(lrow(t) for t in bad_pm1)}]
+
 /-- Prime factorisation of every d1 of both stage-2 tables: (d1, [(p, e), ..]). Checked in Lean. -/
 def d1Factors : List (Nat × List (Nat × Nat)) := [
   {fac_txt}]
@@ -212,7 +284,8 @@ end Ymq.Gen.Stage2Arms
 """
     write_gen("Stage2Arms", out, ["src/ecm.rs", "src/ecm128.rs", "src/pp1.rs", "src/pollard_pm1.rs", "src/params.rs"])
     return (f"ecm {e} ecm128 {e128} pp1 baby {(pp1_start, pp1_step, pp1_div)} giant {(pp1_first, pp1_pushed, pp1_loop_lo)} "
-            f"pm1 baby {(pm1_start, pm1_step)} neg {pm1_neg} off {pm1_off}; {len(pp1_calls)} pp1 calls, {len(d1s)} d1 values")
+            f"pm1 baby {(pm1_start, pm1_step)} neg {pm1_neg} off {pm1_off}; {len(pp1_calls)} pp1 calls, {len(d1s)} d1 values; "
+            f"bad rows ecm {len(bad_ecm)} pp1 {len(bad_pp1)} pm1 {len(bad_pm1)}")
 
 
 if __name__ == "__main__":
